@@ -37,7 +37,7 @@ CLAIMS = {
               "15 % of the cases are HISTORIES over a lazily consumed one-shot domain (C01_over_lazy_domain: the answer is the filter of the "
               "domain's content however much of it earlier, possibly abandoned, evaluations have read)."),
         design='7/C01', technique='Coq proof (structural induction over the expression tree; P-model) + translator-regenerated tables + model/implementation correspondence on result sequences',
-        note=BASE_NOTE + " Of the stateful layer the de-duplication sets are in the proved model (Dedup.v, on its fragment: no for_all / nested query / flatten inside) and the lazy domain in Lazy.v (C01_over_lazy_domain); the result caches are C05's."),
+        note=BASE_NOTE + " Of the stateful layer the de-duplication sets are in the proved model (Dedup.v; fragment: no flatten / concatenate inside, for_all over a plain variable) and the lazy domain in Lazy.v (C01_over_lazy_domain); the result caches are C05's (C05_cached_evaluator: caching the evaluation of any basic condition is transparent)."),
     'C02': dict(
         text=("Machine-checked theorems for any number of variables. Over the P-model: C02_partition (the true rows of every node partition "
               "the satisfying extensions of the incoming binding, the false rows the others), C02_all_selected (every satisfying assignment "
@@ -250,7 +250,7 @@ CLAIMS = {
               "of complete / abandoned / aborted evaluations of one query object starts from the empty de-duplication state - the reset in the "
               "finally clause of An.evaluate / The.evaluate is read from the source by the translator on every run."),
         design='7/C04', technique='Coq proof (invariant over operation histories on the lazy-domain model; extensionality of the evaluator in the domains) + step-wise correspondence on histories',
-        note=BASE_NOTE + " PARTIAL in one respect, stated plainly: the per-node de-duplication sets and the operator result caches are NOT state of the proved model - that they are reset / cleared by every evaluation however it ends (An.evaluate / The.evaluate `finally`) is covered by the history correspondence and by C05, not by a theorem; how far a PARTIAL multi-variable evaluation advances each domain is not modelled (C04_any_advance quantifies over every advance). Three defects were repaired in /repo (reset in finally, concluded_before, repeated domain objects)."),
+        note=BASE_NOTE + " PARTIAL in one respect, stated plainly: the per-node de-duplication sets ARE state of the D-model and C04_dedup_state_reset proves a full evaluation independent of what was evaluated or abandoned before, given the reset at the start of every evaluation (pinned by the translator, C04_reset_at_start); the operator result caches are NOT state of that model - their transparency over any history of lookups is C05's theorem, that no evaluation leaves them inconsistent is covered by the history correspondence; how far a PARTIAL multi-variable evaluation advances each domain is not modelled (C04_any_advance quantifies over every advance). Three defects were repaired in /repo (reset in finally, concluded_before, repeated domain objects)."),
     'C07': dict(
         text=("Machine-checked over the lazy-domain model: C07_nothing_before_first_request (creating the result iterator pulls nothing), "
               "C07_exact_prefix (for every qualification predicate - every condition tree and dataset -, every one-shot domain of distinct "
